@@ -1,7 +1,7 @@
 #!/bin/bash
 # usage: tools/seed_sweep.sh seed... : runs every claimed quick check with each seed; reports non-zero exits
-cd /verif
-rm -rf /verif/out/evidence.bak; cp -r /verif/evidence /verif/out/evidence.bak
+cd "$(dirname "$0")/.."
+rm -rf out/evidence.bak; cp -r evidence out/evidence.bak
 ids=$(python3 -c "import json; print(' '.join(c['property_id'] for c in json.load(open('MANIFEST.json'))['checks']))")
 for s in "$@"; do
   for p in $ids; do
@@ -10,4 +10,4 @@ for s in "$@"; do
   done
   echo "SWEEP seed=$s done"
 done
-rm -rf /verif/evidence; mv /verif/out/evidence.bak /verif/evidence
+rm -rf evidence; mv out/evidence.bak evidence
